@@ -10,66 +10,74 @@
 #include "avtp/acf/CanBrief.h"
 #include "avtp/acf/custom/Vss.h"
 
+/* how the thunks call the library: every pointer argument is written as an unparenthesised sum (a function-like macro that
+ * shadows an entry point and casts its argument without parentheses computes another address), and the call goes either
+ * by name or, with w_pm set, through the parenthesised name, which reaches the exported function behind such a macro */
+extern unsigned long w_pm;
+#define W_CALL(F, ...) (w_pm ? (F)(__VA_ARGS__) : F(__VA_ARGS__))
+#define W_CALLV(F, ...) do { if (w_pm) (F)(__VA_ARGS__); else F(__VA_ARGS__); } while (0)
+#define W_P(x) (void*)((uint8_t*)(x) - ((x) ? 16 : 0)) + ((x) ? 16 : 0)
+
 /* ---------------- ACF-CAN ---------------- */
 void w_can_create(uint8_t* pdu, uint64_t id, uint8_t* payload, uint64_t len, uint64_t variant)
 {
-    Avtp_Can_CreateAcfMessage((Avtp_Can_t*)pdu, (uint32_t)id, payload, (uint16_t)len, (Avtp_CanVariant_t)variant);
+    W_CALLV(Avtp_Can_CreateAcfMessage, W_P(pdu), (uint32_t)id, payload, (uint16_t)len, (Avtp_CanVariant_t)variant);
 }
 
 /* the separate steps a talker may use instead of the one-shot builder */
 void w_can_steps(uint8_t* pdu, uint64_t id, uint8_t* payload, uint64_t len, uint64_t variant)
 {
     Avtp_Can_t* p = (Avtp_Can_t*)pdu;
-    Avtp_Can_SetPayload(p, payload, (uint16_t)len);
-    Avtp_Can_SetEff(p, (uint32_t)id > 0x7ff ? 1 : 0);
-    Avtp_Can_SetCanIdentifier(p, (uint32_t)id);
-    Avtp_Can_SetFdf(p, (uint8_t)variant);
-    Avtp_Can_Finalize(p, (uint16_t)len);
+    W_CALLV(Avtp_Can_SetPayload, p, payload, (uint16_t)len);
+    W_CALLV(Avtp_Can_SetEff, p, (uint32_t)id > 0x7ff ? 1 : 0);
+    W_CALLV(Avtp_Can_SetCanIdentifier, p, (uint32_t)id);
+    W_CALLV(Avtp_Can_SetFdf, p, (uint8_t)variant);
+    W_CALLV(Avtp_Can_Finalize, p, (uint16_t)len);
 }
 
 /* a talker that writes the payload in place (through the payload accessor) and then finalises */
 void w_can_steps_inplace(uint8_t* pdu, uint64_t id, uint8_t* payload, uint64_t len, uint64_t variant)
 {
     Avtp_Can_t* p = (Avtp_Can_t*)pdu;
-    memcpy(Avtp_Can_GetPayload(p), payload, (size_t)len);
-    Avtp_Can_SetFdf(p, (uint8_t)variant);
-    Avtp_Can_SetCanIdentifier(p, (uint32_t)id);
-    Avtp_Can_SetEff(p, (uint32_t)id > 0x7ff ? 1 : 0);
-    Avtp_Can_Finalize(p, (uint16_t)len);
+    memcpy(W_CALL(Avtp_Can_GetPayload, p), payload, (size_t)len);
+    W_CALLV(Avtp_Can_SetFdf, p, (uint8_t)variant);
+    W_CALLV(Avtp_Can_SetCanIdentifier, p, (uint32_t)id);
+    W_CALLV(Avtp_Can_SetEff, p, (uint32_t)id > 0x7ff ? 1 : 0);
+    W_CALLV(Avtp_Can_Finalize, p, (uint16_t)len);
 }
 
-uint64_t w_can_paylen(uint8_t* pdu) { return Avtp_Can_GetCanPayloadLength((Avtp_Can_t*)pdu); }
-uint64_t w_can_payoff(uint8_t* pdu) { return (uint64_t)(Avtp_Can_GetPayload((Avtp_Can_t*)pdu) - pdu); }
+uint64_t w_can_paylen(uint8_t* pdu) { return W_CALL(Avtp_Can_GetCanPayloadLength, W_P(pdu)); }
+uint64_t w_can_payoff(uint8_t* pdu) { return (uint64_t)(W_CALL(Avtp_Can_GetPayload, W_P(pdu)) - pdu); }
 
 uint64_t w_canbrief_create(uint8_t* pdu, uint64_t id, uint8_t* payload, uint64_t len, uint64_t variant)
 {
-    return (uint64_t)(int64_t)Avtp_CanBrief_SetPayload((Avtp_CanBrief_t*)pdu, (uint32_t)id, payload, (uint16_t)len, (Avtp_CanVariant_t)variant);
+    return (uint64_t)(int64_t)W_CALL(Avtp_CanBrief_SetPayload, W_P(pdu), (uint32_t)id, payload, (uint16_t)len, (Avtp_CanVariant_t)variant);
 }
 
 uint64_t w_canbrief_steps(uint8_t* pdu, uint64_t id, uint8_t* payload, uint64_t len, uint64_t variant)
 {
     Avtp_CanBrief_t* p = (Avtp_CanBrief_t*)pdu;
     memcpy(p->payload, payload, (size_t)len);
-    Avtp_CanBrief_SetEff(p, (uint32_t)id > 0x7ff ? 1 : 0);
-    Avtp_CanBrief_SetCanIdentifier(p, (uint32_t)id);
-    Avtp_CanBrief_SetFdf(p, (uint8_t)variant);
-    return (uint64_t)(int64_t)Avtp_CanBrief_Finalize(p, (uint16_t)len);
+    W_CALLV(Avtp_CanBrief_SetEff, p, (uint32_t)id > 0x7ff ? 1 : 0);
+    W_CALLV(Avtp_CanBrief_SetCanIdentifier, p, (uint32_t)id);
+    W_CALLV(Avtp_CanBrief_SetFdf, p, (uint8_t)variant);
+    return (uint64_t)(int64_t)W_CALL(Avtp_CanBrief_Finalize, p, (uint16_t)len);
 }
 
 /* ---------------- VSS ---------------- */
-void w_vss_pad(uint8_t* pdu, uint64_t len) { Avtp_Vss_Pad((Avtp_Vss_t*)pdu, (uint16_t)len); }
+void w_vss_pad(uint8_t* pdu, uint64_t len) { W_CALLV(Avtp_Vss_Pad, W_P(pdu), (uint16_t)len); }
 /* read length and pad through the dedicated getters, finalise, read them again - all inside one function, as an
  * application does; out: length before, pad before, length after, pad after (16 bits each, big-endian) */
 void w_vss_pad_getters(uint8_t* pdu, uint64_t len, uint8_t* out)
 {
     Avtp_Vss_t* v = (Avtp_Vss_t*)pdu;
-    uint16_t l0 = Avtp_Vss_GetAcfMsgLength(v), p0 = Avtp_Vss_GetPad(v);
-    Avtp_Vss_Pad(v, (uint16_t)len);
-    uint16_t l1 = Avtp_Vss_GetAcfMsgLength(v), p1 = Avtp_Vss_GetPad(v);
+    uint16_t l0 = W_CALL(Avtp_Vss_GetAcfMsgLength, v), p0 = W_CALL(Avtp_Vss_GetPad, v);
+    W_CALLV(Avtp_Vss_Pad, v, (uint16_t)len);
+    uint16_t l1 = W_CALL(Avtp_Vss_GetAcfMsgLength, v), p1 = W_CALL(Avtp_Vss_GetPad, v);
     out[0] = (uint8_t)(l0 >> 8); out[1] = (uint8_t)l0; out[2] = (uint8_t)(p0 >> 8); out[3] = (uint8_t)p0;
     out[4] = (uint8_t)(l1 >> 8); out[5] = (uint8_t)l1; out[6] = (uint8_t)(p1 >> 8); out[7] = (uint8_t)p1;
 }
-uint64_t w_vss_pathlen(uint8_t* pdu) { return Avtp_Vss_CalcVssPathLength((Avtp_Vss_t*)pdu); }
+uint64_t w_vss_pathlen(uint8_t* pdu) { return W_CALL(Avtp_Vss_CalcVssPathLength, W_P(pdu)); }
 
 /* kind 0: caller's VssPath_t holds an interop path (length + pointer); kind 1: a static id */
 void w_vss_set_path(uint8_t* pdu, uint64_t kind, uint64_t static_id, uint8_t* path, uint64_t pathlen)
@@ -78,7 +86,7 @@ void w_vss_set_path(uint8_t* pdu, uint64_t kind, uint64_t static_id, uint8_t* pa
     memset(&vp, 0, sizeof vp);
     if (kind == 1) vp.vss_static_id_path = (uint32_t)static_id;
     else { vp.vss_interop_path.path_length = (uint16_t)pathlen; vp.vss_interop_path.path = (char*)path; }
-    Avtp_Vss_SetVssPath((Avtp_Vss_t*)pdu, &vp);
+    W_CALLV(Avtp_Vss_SetVssPath, W_P(pdu), &vp);
 }
 
 /* out[0..1] path_length BE (or 0xA5A5 when untouched), out[2] = 1 when the path pointer was changed,
@@ -92,7 +100,7 @@ void w_vss_get_path2(uint8_t* pdu, uint64_t kind, uint8_t* dest, uint8_t* out, u
     memset(&s, 0xA5, sizeof s);
     memset(&s.vp, (int)prefill, sizeof s.vp);
     if (kind == 0) s.vp.vss_interop_path.path = (char*)dest;
-    Avtp_Vss_GetVssPath((Avtp_Vss_t*)pdu, &s.vp);
+    W_CALLV(Avtp_Vss_GetVssPath, W_P(pdu), &s.vp);
     memset(out, 0, 8);
     if (kind == 0) {
         out[0] = (uint8_t)(s.vp.vss_interop_path.path_length >> 8);
@@ -188,7 +196,7 @@ void w_vss_set_data(uint8_t* pdu, uint64_t shape, uint8_t* canon, uint64_t nbyte
         arr.data = (uint64_t*)(void*)typed;       /* NULL is passed through for empty values: a caller without data */
         val.data_uint64_array = &arr;
     }
-    Avtp_Vss_SetVssData((Avtp_Vss_t*)pdu, &val);
+    W_CALLV(Avtp_Vss_SetVssData, W_P(pdu), &val);
 }
 
 /* decode. shape as above. dest: destination for variable-length values (NULL = length query), naturally
@@ -204,7 +212,7 @@ void w_vss_get_data2(uint8_t* pdu, uint64_t shape, uint8_t* dest, uint8_t* out_c
     memset(&s, 0xA5, sizeof s);
     memset(meta, 0, 4);
     if (shape <= 10) {
-        Avtp_Vss_GetVssData((Avtp_Vss_t*)pdu, &s.val);
+        W_CALLV(Avtp_Vss_GetVssData, W_P(pdu), &s.val);
         uint64_t v = 0;
         switch (shape) {
         case 0: v = s.val.data_uint8; break;
@@ -227,7 +235,7 @@ void w_vss_get_data2(uint8_t* pdu, uint64_t shape, uint8_t* dest, uint8_t* out_c
         s.arr.data = (uint64_t*)(void*)dest;
         s.arr.data_length = (uint16_t)prefill;
         s.val.data_uint64_array = &s.arr;
-        Avtp_Vss_GetVssData((Avtp_Vss_t*)pdu, &s.val);
+        W_CALLV(Avtp_Vss_GetVssData, W_P(pdu), &s.val);
         meta[0] = (uint8_t)(s.arr.data_length >> 8);
         meta[1] = (uint8_t)s.arr.data_length;
         meta[2] = (s.arr.data != (uint64_t*)(void*)dest) | (s.val.data_uint64_array != &s.arr);
@@ -261,7 +269,7 @@ uint64_t w_sa_pack2(uint8_t* lens_be, uint8_t* bytes, uint64_t n, uint8_t* packe
     }
     sa.data_length = 0xA5A5;
     sa.data = packed;
-    Avtp_Vss_SerializeStringArray(&sa, ptrs, (uint16_t)n);
+    W_CALLV(Avtp_Vss_SerializeStringArray, &sa, ptrs, (uint16_t)n);
     return (uint64_t)sa.data_length | ((uint64_t)(sa.data != packed) << 32);
 }
 
@@ -270,7 +278,7 @@ uint64_t w_sa_count(uint8_t* packed, uint64_t data_length)
     VssDataStringArray_t sa;
     sa.data_length = (uint16_t)data_length;
     sa.data = packed;
-    return Avtp_Vss_GetVSSDataStringArrayLength(&sa);
+    return W_CALL(Avtp_Vss_GetVSSDataStringArrayLength, &sa);
 }
 
 /* unpack `req` strings. dest: flat destination area (NULL = lengths only); string i is given the address
@@ -297,7 +305,7 @@ uint64_t w_sa_unpack2(uint8_t* packed, uint64_t data_length, uint64_t req, uint8
         d->data = (dest && !(alternate && (i & 1))) ? (char*)dest + be_load(offs_be + 4 * i, 4) : (char*)0;
         ptrs[i] = d;
     }
-    Avtp_Vss_DeserializeStringArray(&sa, ptrs, (uint16_t)req);
+    W_CALLV(Avtp_Vss_DeserializeStringArray, &sa, ptrs, (uint16_t)req);
     for (uint64_t i = 0; i < req && i < SA_MAX; i++) {
         VssDataString_t* d = &strs[SLOT(i, req, scattered)];
         be_store(out_lens_be + 2 * i, 2, d->data_length);
